@@ -52,6 +52,68 @@ Definition CFConfigMoves_get_q_underlying_degree (self_divisor_degrees : dictZ) 
   match CFDivisor_get_degree self_divisor_degrees self_q_vertex with PyExn _ => PyExn tt | PyOk t1_ =>
   PyOk (t1_) end.
 
+(* chipfiring/CFConfig.py :: CFConfigMoves._is_comparable_to   reads ['self_q_vertex', 'self_graph_vertices', 'self_graph_graph'], writes [], may raise *)
+Definition CFConfigMoves__is_comparable_to (self_q_vertex : nat) (self_graph_vertices : list nat) (self_graph_graph : dictD) (set_order : list nat -> list nat) (other_q_vertex : nat) (other_graph_vertices : list nat) (other_graph_graph : dictD) (other_v_tilde_vertices : list nat) (other_divisor_degrees : dictZ) : pyres (unit) bool :=
+  if (negb (Nat.eqb self_q_vertex other_q_vertex)) then
+  PyOk (false)
+  else
+  if (negb (set_eqb self_graph_vertices other_graph_vertices)) then
+  PyOk (false)
+  else
+  match fold_left (fun acc_ v_node => match acc_ with PyExn e_ => PyExn e_ | PyOk (Some r_, tt) => PyOk (Some r_, tt) | PyOk (None, tt) => 
+  let self_v_neighbors := (d_get v_node [] self_graph_graph) in
+  let other_v_neighbors := (d_get v_node [] other_graph_graph) in
+  if (negb (dict_eqb self_v_neighbors other_v_neighbors)) then
+  PyOk (Some (false), tt)
+  else
+  PyOk (None, tt) end) (set_order self_graph_vertices) (PyOk (None, tt)) with PyExn e_ => PyExn e_ | PyOk (Some r_, tt) => PyOk (r_) | PyOk (None, tt) =>
+  PyOk (true) end.
+
+(* chipfiring/CFConfig.py :: CFConfigMoves.__eq__   reads ['self_q_vertex', 'self_graph_vertices', 'self_graph_graph', 'self_v_tilde_vertices', 'self_divisor_degrees'], writes [], may raise *)
+Definition CFConfigMoves___eq__ (self_q_vertex : nat) (self_graph_vertices : list nat) (self_graph_graph : dictD) (self_v_tilde_vertices : list nat) (self_divisor_degrees : dictZ) (set_order : list nat -> list nat) (other_q_vertex : nat) (other_graph_vertices : list nat) (other_graph_graph : dictD) (other_v_tilde_vertices : list nat) (other_divisor_degrees : dictZ) : pyres (unit) bool :=
+  match CFConfigMoves__is_comparable_to self_q_vertex self_graph_vertices self_graph_graph set_order other_q_vertex other_graph_vertices other_graph_graph other_v_tilde_vertices other_divisor_degrees with PyExn _ => PyExn tt | PyOk t1_ =>
+  if (negb t1_) then
+  PyOk (false)
+  else
+  match fold_left (fun acc_ v_node => match acc_ with PyExn e_ => PyExn e_ | PyOk (Some r_, tt) => PyOk (Some r_, tt) | PyOk (None, tt) => 
+  match CFConfigMoves_get_degree_at self_q_vertex self_v_tilde_vertices self_divisor_degrees v_node with PyExn _ => PyExn tt | PyOk t2_ =>
+  match CFConfigMoves_get_degree_at other_q_vertex other_v_tilde_vertices other_divisor_degrees v_node with PyExn _ => PyExn tt | PyOk t3_ =>
+  if (negb (t2_ =? t3_)) then
+  PyOk (Some (false), tt)
+  else
+  PyOk (None, tt) end end end) (set_order self_v_tilde_vertices) (PyOk (None, tt)) with PyExn e_ => PyExn e_ | PyOk (Some r_, tt) => PyOk (r_) | PyOk (None, tt) =>
+  PyOk (true) end end.
+
+(* chipfiring/CFConfig.py :: CFConfigMoves.__ge__   reads ['self_q_vertex', 'self_graph_vertices', 'self_graph_graph', 'self_v_tilde_vertices', 'self_divisor_degrees'], writes [], may raise *)
+Definition CFConfigMoves___ge__ (self_q_vertex : nat) (self_graph_vertices : list nat) (self_graph_graph : dictD) (self_v_tilde_vertices : list nat) (self_divisor_degrees : dictZ) (set_order : list nat -> list nat) (other_q_vertex : nat) (other_graph_vertices : list nat) (other_graph_graph : dictD) (other_v_tilde_vertices : list nat) (other_divisor_degrees : dictZ) : pyres (unit) bool :=
+  match CFConfigMoves__is_comparable_to self_q_vertex self_graph_vertices self_graph_graph set_order other_q_vertex other_graph_vertices other_graph_graph other_v_tilde_vertices other_divisor_degrees with PyExn _ => PyExn tt | PyOk t1_ =>
+  if (negb t1_) then
+  PyExn tt
+  else
+  match fold_left (fun acc_ v_node => match acc_ with PyExn e_ => PyExn e_ | PyOk (Some r_, tt) => PyOk (Some r_, tt) | PyOk (None, tt) => 
+  match CFConfigMoves_get_degree_at self_q_vertex self_v_tilde_vertices self_divisor_degrees v_node with PyExn _ => PyExn tt | PyOk t2_ =>
+  match CFConfigMoves_get_degree_at other_q_vertex other_v_tilde_vertices other_divisor_degrees v_node with PyExn _ => PyExn tt | PyOk t3_ =>
+  if (t2_ <? t3_) then
+  PyOk (Some (false), tt)
+  else
+  PyOk (None, tt) end end end) (set_order self_v_tilde_vertices) (PyOk (None, tt)) with PyExn e_ => PyExn e_ | PyOk (Some r_, tt) => PyOk (r_) | PyOk (None, tt) =>
+  PyOk (true) end end.
+
+(* chipfiring/CFConfig.py :: CFConfigMoves.__le__   reads ['self_q_vertex', 'self_graph_vertices', 'self_graph_graph', 'self_v_tilde_vertices', 'self_divisor_degrees'], writes [], may raise *)
+Definition CFConfigMoves___le__ (self_q_vertex : nat) (self_graph_vertices : list nat) (self_graph_graph : dictD) (self_v_tilde_vertices : list nat) (self_divisor_degrees : dictZ) (set_order : list nat -> list nat) (other_q_vertex : nat) (other_graph_vertices : list nat) (other_graph_graph : dictD) (other_v_tilde_vertices : list nat) (other_divisor_degrees : dictZ) : pyres (unit) bool :=
+  match CFConfigMoves__is_comparable_to self_q_vertex self_graph_vertices self_graph_graph set_order other_q_vertex other_graph_vertices other_graph_graph other_v_tilde_vertices other_divisor_degrees with PyExn _ => PyExn tt | PyOk t1_ =>
+  if (negb t1_) then
+  PyExn tt
+  else
+  match fold_left (fun acc_ v_node => match acc_ with PyExn e_ => PyExn e_ | PyOk (Some r_, tt) => PyOk (Some r_, tt) | PyOk (None, tt) => 
+  match CFConfigMoves_get_degree_at self_q_vertex self_v_tilde_vertices self_divisor_degrees v_node with PyExn _ => PyExn tt | PyOk t2_ =>
+  match CFConfigMoves_get_degree_at other_q_vertex other_v_tilde_vertices other_divisor_degrees v_node with PyExn _ => PyExn tt | PyOk t3_ =>
+  if (t2_ >? t3_) then
+  PyOk (Some (false), tt)
+  else
+  PyOk (None, tt) end end end) (set_order self_v_tilde_vertices) (PyOk (None, tt)) with PyExn e_ => PyExn e_ | PyOk (Some r_, tt) => PyOk (r_) | PyOk (None, tt) =>
+  PyOk (true) end end.
+
 (* chipfiring/CFConfig.py :: CFConfigMoves.set_fire   reads ['self_q_vertex', 'self_v_tilde_vertices', 'self_divisor_graph_graph', 'self_divisor_degrees'], writes ['self_divisor_degrees'], may raise *)
 Definition CFConfigMoves_set_fire (self_q_vertex : nat) (self_v_tilde_vertices : list nat) (self_divisor_graph_graph : dictD) (self_divisor_degrees : dictZ) (set_order : list nat -> list nat) (S_vertex_names : list nat) : pyres (dictZ) (dictZ) :=
   match fold_left (fun acc_ name => match acc_ with PyExn e_ => PyExn e_ | PyOk tt => 
